@@ -9,7 +9,6 @@ from harness.pyval import enc, enc_list, Unencodable, strict_eq
 ID = 'C39'
 TITLE = 'RenameChoices renames exactly the mapped choices'
 PROPS = ['Props/C39']
-DISABLED = True
 RULE = ('documents built through the real engine: table T with Choice columns Ch and X, ChoiceList column CL, an Any '
         'column, formula columns FCh=$Ch (Choice) and FCL=$CL (ChoiceList), a second table U with a Choice column; 1-8 '
         'rows of choices x,y,z,w,"",e-acute, None, alt-text and numbers, ChoiceList cells with 0-3 elements; random row '
@@ -77,21 +76,21 @@ def gen_choice_cell(rng):
   r = rng.random()
   if r < 0.7:
     return rng.choice(CHOICES)
-  return rng.choice(['', None, 5, u'é', 'q', 'xy', 1.5, True])
+  return rng.choice(['', None, 5, u'é', 'q', 'xy', 1.5, True, 'x ', 'X', ' y'])
 
 
 def gen_list_cell(rng):
   r = rng.random()
   if r < 0.7:
     n = rng.choice([1, 1, 2, 2, 3])
-    pool = CHOICES + ['', u'é', 'q']
+    pool = CHOICES + ['', u'é', 'q', 'x ', 'X']
     items = [rng.choice(pool) for _ in range(n)] if rng.random() < 0.3 else rng.sample(pool, n)
     return ['L'] + items
   return rng.choice([None, 'alt', '', ['L'], ['L', 'x', 5], 'x', 7])
 
 
 def gen_filter_values(rng):
-  pool = CHOICES + ['', u'é', 'q', 1, 0, None, True, 1.5, ['x'], ['L', 'x', 'y'], {'x': 'y'}, 'xy']
+  pool = CHOICES + ['', u'é', 'q', 1, 0, None, True, 1.5, ['x'], ['L', 'x', 'y'], {'x': 'y'}, 'xy', 'x ', 'X', ' y']
   return [rng.choice(pool) for _ in range(rng.choice([0, 1, 2, 3, 4, 5]))]
 
 
